@@ -41,23 +41,98 @@ def detect (i : In) : Cause :=
 /-- `causes.HANDLER_REASONS` -/
 def handlerReasons : List Reason := [.create, .update, .delete, .resume]
 
-/-- What the gate reads of a changing handler. -/
+/-- What the gate reads of a TOP-LEVEL changing handler (one built by a `kopf.on` decorator): for those,
+    "no cause kind and not resuming" means `@kopf.on.field`. Used by the C14/C03 models, whose handler
+    declarations are top-level only. The general shape (sub-handlers included) is `Shape` below; `gate`
+    is `gateS` on `Handler.shape` (`gate_eq_shape` in Props). -/
 structure Handler where
   reason : Option Reason   -- None for on.resume / on.field
   initial : Bool           -- on.resume
   deletedOptIn : Bool      -- on.resume(deleted=True)
   deriving DecidableEq, Repr
 
-/-- `ChangingRegistry.iter_handlers` before `match()` (filters are C15). -/
+/-- `ChangingRegistry.iter_handlers` before `match()` (filters are C15), for top-level handlers. -/
 def gate (h : Handler) (c : Cause) : Bool :=
   (h.reason == none || h.reason == some c.reason) &&
   !(h.initial && !c.initial) &&
   !(h.initial && c.marked && !h.deletedOptIn) &&
   !(h.reason == none && !h.initial && c.marked)      -- field handlers are for updates only (/repo 345a874)
 
-/-- A changing handler can be invoked in a cycle only if both gates let it through. -/
+/-- A top-level changing handler can be invoked in a cycle only if both gates let it through. -/
 def invocable (h : Handler) (i : In) : Bool :=
   let c := detect i
   handlerReasons.contains c.reason && gate h c
+
+/-! ### The gate as the code has it: every `ChangingHandler`, sub-handlers included -/
+
+/-- What the gate reads of any changing handler.
+    `needsChange` = `bool(handler.field_needs_change)`: true for `@kopf.on.update` / `@kopf.on.field`
+    (and for the `@kopf.subhandler` / `kopf.register` sub-handlers of those, which inherit it), false/None
+    for everything else, in particular for all sub-handlers of creation/deletion/resuming handlers and for
+    those made by `kopf.execute(fns=...)`. -/
+structure Shape where
+  reason : Option Reason   -- None for on.resume / on.field / every sub-handler
+  initial : Bool           -- on.resume
+  deletedOptIn : Bool      -- on.resume(deleted=True)
+  needsChange : Bool       -- on.update / on.field (+ inherited by their sub-handlers)
+  deriving DecidableEq, Repr
+
+/-- `ChangingRegistry.iter_handlers` before `match()` (filters are C15). -/
+def gateS (h : Shape) (c : Cause) : Bool :=
+  (h.reason == none || h.reason == some c.reason) &&
+  !(h.initial && !c.initial) &&
+  !(h.initial && c.marked && !h.deletedOptIn) &&
+  -- field handlers are for updates only (/repo 345a874); sub-handlers (no change needed) are of their
+  -- parent's kind and pass (/repo 17e5c42)
+  !(h.reason == none && !h.initial && h.needsChange && c.marked)
+
+/-- The gate as it was between /repo 345a874 and 17e5c42 (kept as the regression witness's subject):
+    every reason-less non-resuming handler was skipped on a marked object — the sub-handlers too. -/
+def gateOld (h : Shape) (c : Cause) : Bool :=
+  (h.reason == none || h.reason == some c.reason) &&
+  !(h.initial && !c.initial) &&
+  !(h.initial && c.marked && !h.deletedOptIn) &&
+  !(h.reason == none && !h.initial && c.marked)
+
+/-- A changing handler can be invoked in a cycle only if both gates let it through. -/
+def invocableS (h : Shape) (i : In) : Bool :=
+  let c := detect i
+  handlerReasons.contains c.reason && gateS h c
+
+/-- The shape of a top-level handler: `field_needs_change` is set by on.update and on.field only. -/
+def Handler.shape (h : Handler) : Shape :=
+  { reason := h.reason, initial := h.initial, deletedOptIn := h.deletedOptIn,
+    needsChange := h.reason == some .update || (h.reason == none && !h.initial) }
+
+/-! ### Sub-handlers
+  `subhandling.execute` runs inside the parent handler's invocation, with the parent's cause
+  (`execution.cause_var`), and selects from its sub-registry with the same `iter_handlers`. -/
+
+/-- What `kopf.execute(fns=...)` builds: `reason=None, initial=None, deleted=None, field_needs_change=None`. -/
+def plainSub : Shape := { reason := none, initial := false, deletedOptIn := false, needsChange := false }
+
+/-- What `@kopf.subhandler()` / `kopf.register()` build under parent `p`: the same, but
+    `field_needs_change=parent_handler.field_needs_change`. -/
+def subOf (p : Shape) : Shape :=
+  { reason := none, initial := false, deletedOptIn := false, needsChange := p.needsChange }
+
+/-- The handler shapes the decorators of `kopf.on` build (reason, initial, deleted opt-in, needs-change):
+    on.create, on.update, on.delete, on.resume(deleted=False/True), on.field. -/
+def decorated (h : Shape) : Bool :=
+  h == ⟨some .create, false, false, false⟩ || h == ⟨some .update, false, false, true⟩ ||
+  h == ⟨some .delete, false, false, false⟩ ||
+  h == ⟨none, true, false, false⟩ || h == ⟨none, true, true, false⟩ ||
+  h == ⟨none, false, false, true⟩
+
+/-- What all constructible handlers have in common (decorated ones, and sub-handlers at any depth):
+    only update-kind handlers need a change of their field — on.update, or reason-less non-resuming
+    ones (on.field and the inheriting sub-handlers of on.update/on.field). -/
+def wellFormed (h : Shape) : Bool :=
+  !h.needsChange || h.reason == some .update || (h.reason == none && !h.initial)
+
+/-- A sub-handler `s` of parent `p` can be invoked in a cycle only if the parent is invoked in that cycle
+    and the gate lets `s` through for the same cause. -/
+def subInvocable (p s : Shape) (i : In) : Bool :=
+  invocableS p i && gateS s (detect i)
 
 end Kopf.C05
